@@ -273,6 +273,7 @@ func init() {
 		skeleton("pkg/aggregation/sorting/namevalue.go", "ValueNilSorter", "valueNilSorterSkel")
 		skeleton("pkg/aggregation/sorting/sorter.go", "Reverse", "reverseSkel")
 		skeleton(helpFile, "BuildSorter", "buildSorterSkel")
+		skeleton("pkg/aggregation/accumulator.go", "AccumulatingGroup.Groups", "groupsSkel")
 
 		for _, fn := range [][2]string{
 			{"pkg/aggregation/sorting/strings.go", "ByName"}, {"pkg/aggregation/sorting/strings.go", "ByNameSmart"},
@@ -281,6 +282,7 @@ func init() {
 			{"pkg/aggregation/sorting/namevalue.go", "ValueSorterEx"}, {"pkg/aggregation/sorting/namevalue.go", "ValueNilSorter"},
 			{"pkg/aggregation/sorting/sorter.go", "Reverse"}, {"pkg/aggregation/sorting/sorter.go", "SortBy"},
 			{helpFile, "parseSort"}, {helpFile, "lookupSorter"}, {helpFile, "BuildSorter"},
+			{"pkg/aggregation/accumulator.go", "AccumulatingGroup.Groups"},
 		} {
 			c.Fingerprint(fn[0], fn[1])
 		}
